@@ -547,47 +547,71 @@ class BasicContiguousVector<cntgs::Options<Option...>, Parameter...>
         locator_ = std::move(other_locator);
     }
 
+    template <class OtherVector, std::size_t... I>
+    constexpr bool has_equal_fixed_sizes([[maybe_unused]] const OtherVector& other,
+                                         std::index_sequence<I...>) const noexcept
+    {
+        return ((get_fixed_size<I>() == other.template get_fixed_size<I>()) && ...);
+    }
+
+    // The memory of two vectors can only be compared as one range of bytes if it contains no padding and the elements
+    // of both vectors have the same layout.
+    template <class OtherVector>
+    constexpr bool is_memcmp_comparable_to(const OtherVector& other) const noexcept
+    {
+        if constexpr (ElementTraits::IS_PADDING_FREE)
+        {
+            return has_equal_fixed_sizes(other,
+                                         std::make_index_sequence<ListTraits::CONTIGUOUS_FIXED_SIZE_COUNT>{});
+        }
+        else
+        {
+            return false;
+        }
+    }
+
     template <class... TOption>
     constexpr auto equal(const cntgs::BasicContiguousVector<cntgs::Options<TOption...>, Parameter...>& other) const
     {
         if constexpr (ListTraits::IS_EQUALITY_MEMCMPABLE)
         {
-            if (empty())
+            if (is_memcmp_comparable_to(other))
             {
-                return other.empty();
+                if (empty())
+                {
+                    return other.empty();
+                }
+                if (other.empty())
+                {
+                    return false;
+                }
+                return detail::trivial_equal(data_begin(), data_end(), other.data_begin(), other.data_end());
             }
-            if (other.empty())
-            {
-                return false;
-            }
-            return detail::trivial_equal(data_begin(), data_end(), other.data_begin(), other.data_end());
         }
-        else
-        {
-            return std::equal(begin(), end(), other.begin());
-        }
+        return std::equal(begin(), end(), other.begin(), other.end());
     }
+
     template <class... TOption>
     constexpr auto lexicographical_compare(
         const cntgs::BasicContiguousVector<cntgs::Options<TOption...>, Parameter...>& other) const
     {
         if constexpr (ListTraits::IS_LEXICOGRAPHICAL_MEMCMPABLE && ListTraits::IS_FIXED_SIZE_OR_PLAIN)
         {
-            if (empty())
+            if (is_memcmp_comparable_to(other))
             {
-                return !other.empty();
+                if (empty())
+                {
+                    return !other.empty();
+                }
+                if (other.empty())
+                {
+                    return false;
+                }
+                return detail::trivial_lexicographical_compare(data_begin(), data_end(), other.data_begin(),
+                                                               other.data_end());
             }
-            if (other.empty())
-            {
-                return false;
-            }
-            return detail::trivial_lexicographical_compare(data_begin(), data_end(), other.data_begin(),
-                                                           other.data_end());
         }
-        else
-        {
-            return std::lexicographical_compare(begin(), end(), other.begin(), other.end());
-        }
+        return std::lexicographical_compare(begin(), end(), other.begin(), other.end());
     }
 
     constexpr iterator make_iterator(const const_iterator& it) noexcept { return {*this, it.index()}; }
